@@ -12,12 +12,12 @@ import (
 
 const (
 	nsPerDay  = 86400 * 1000000000
-	yearShift = 5368710 // 400*yearShift > 2^31
+	yearShift = 21474837 // 400*yearShift > 2^33
 )
 
 func c64(v int64) *term.Term { return term.Const(64, uint64(v)) }
 
-// daysBeforeYear: days from 0001-01-01 to Jan 1 of year y (|y| <= 2^31), may be negative.
+// daysBeforeYear: days from 0001-01-01 to Jan 1 of year y (|y| <= 2^33), may be negative.
 func daysBeforeYear(y *term.Term) *term.Term {
 	a := term.Add(y, c64(400*yearShift-1)) // >= 0
 	d := term.Mul(a, c64(365))
@@ -64,7 +64,7 @@ func ordinalNorm(year, month, day *term.Term) (*term.Term, *term.Term) {
 	y := term.Add(year, q)
 	m := term.Add(r, c64(1))
 	ord := term.Add(term.Add(daysBeforeYear(y), monthOffset(y, m)), term.Sub(day, c64(1)))
-	pre := term.And(term.Sge(y, c64(-(1<<31))), term.Sle(y, c64(1<<31)), term.Sge(month, c64(-(1<<35))), term.Sle(month, c64(1<<35)),
+	pre := term.And(term.Sge(y, c64(-(1<<33))), term.Sle(y, c64(1<<33)), term.Sge(month, c64(-(1<<35))), term.Sle(month, c64(1<<35)),
 		term.Sge(day, c64(-(1<<40))), term.Sle(day, c64(1<<40)))
 	return ord, pre
 }
@@ -130,7 +130,7 @@ func (ex *Exec) freshYMD(st *State, ord *term.Term) (y, m, d *term.Term) {
 	}
 	y, m, d = ex.Fresh("Y", term.BV(64)), ex.Fresh("M", term.BV(64)), ex.Fresh("D", term.BV(64))
 	o, _ := ordinalNorm(y, m, d)
-	st.G = term.And(st.G, term.Sge(y, c64(-(1<<31))), term.Sle(y, c64(1<<31)), validYMD(y, m, d), term.Eq(o, ord))
+	st.G = term.And(st.G, term.Sge(y, c64(-(1<<33))), term.Sle(y, c64(1<<33)), validYMD(y, m, d), term.Eq(o, ord))
 	return
 }
 
